@@ -20,7 +20,7 @@ def _string(rng, n=None, maxlen=12, lossless=False):
     if n is None:
         n = rng.randrange(0, maxlen + 1)
     if lossless:
-        out = [rng.choice(b"abcdefgXYZ 0189_-") for _ in range(n)]
+        out = [rng.choice(b"abcdefgXYZ 0189_-OP}\"!") for _ in range(n)]       # (O P } \" ! sit on the boundaries of the encoded-string inversion)
         # y-diaeresis is lossy only "where sanitised or padded" (C01's quantifier): it is generated, and the MODEL says whether the
         # object it lands in still belongs to the quantifier (mode givenrt)
         if n and rng.random() < 0.3:
@@ -87,6 +87,8 @@ class Gen:
                     continue
                 if i["type"] in ("byte", "char") and (self.boundary or rng.random() < 0.05) and 0 < lim <= 300:
                     lens[i["name"]] = rng.choice([lim, lim - 1, lim - 2])           # as many as the length field can carry
+                elif i["type"] in ("short", "three", "int") and self.boundary:
+                    lens[i["name"]] = max(i["offset"], 0) + rng.choice([256, 257, 258, 259, 300])     # beyond one byte (and beyond the interned small integers)
                 else:
                     lens[i["name"]] = max(i["offset"], 0) + rng.randrange(0, min(7, max(1, lim - max(i["offset"], 0) + 1)))
             elif t == "field" and i["name"]:
